@@ -68,7 +68,9 @@ Print Assumptions fsis_calls_are_generator_rates.
        EARLIER record of the same pair, or — the single redraw — rec_time[v] = s_v + d_v for a
        duration record of v, in which case the record just before it is the discarded attempt
        s' + d' of the same pair and s_v <= s' + d' < rec_time[v]: the skipped interval lies
-       inside v's infectious period; every duration record starts at an infection event;
+       inside v's infectious period, and rec_time[v] < rec_time[u] (= s_u + d_u of a duration
+       record of u, or u never recovers: gamma*w_u = 0); every duration record starts at an
+       infection event;
    (3) at every head of the event loop ([ml_via CI]): every queued attempt time is s + d of a
        record, and NO CLOCK IS MISSING: while u is infectious, every neighbour v with a positive
        rate has a pending attempt in the queue ([Pend]), or the last clock of the pair in this
@@ -85,14 +87,14 @@ Theorem fsis_clock_structure :
       tr = map (fun c => fst (EventSISRel.clk_call g tau gamma c)) cs /\
       map (fun c => snd (EventSISRel.clk_call g tau gamma c)) cs = firstn (length cs) ds /\
       out = finish g tmin full (length i0) (ms_log s') /\
-      EventSISClock.clock_ok g (l_elog (ms_log s')) cs /\
-      EventSISClock.ml_via g tau gamma tmax (EventSISClock.CI g tau tmax tmin i0) [] (m_init g tmax tmin i0) s' cs.
+      EventSISClock.clock_ok g gamma (l_elog (ms_log s')) cs /\
+      EventSISClock.ml_via g tau gamma tmax (EventSISClock.CI g tau gamma tmax tmin i0) [] (m_init g tmax tmin i0) s' cs.
 Proof. exact EventSISClock.fsis_clock_structure_run. Qed.
 Print Assumptions fsis_clock_structure.
 
 (* (2) spelled out: what [clock_ok] says about the record at any position *)
 Theorem fsis_clock_record_justified :
-  forall g elog cs, EventSISClock.clock_ok g elog cs ->
+  forall g gamma elog cs, EventSISClock.clock_ok g gamma elog cs ->
   forall pre c post, cs = pre ++ c :: post ->
     match c with
     | EventSISRel.KRec v s d => In (s, v, stI) elog
@@ -102,15 +104,16 @@ Theorem fsis_clock_record_justified :
          exists k' start' d' rd', In (EventSISRel.KAtt u v k' start' d' rd') pre /\ start = tadd start' d')
     | EventSISRel.KAtt u v k start d true =>
         In v (gadj g u) /\
-        exists pre' start' d' sv dv, pre = pre' ++ [EventSISRel.KAtt u v k start' d' false] /\ tadd start' d' < start /\
-          In (EventSISRel.KRec v sv dv) pre /\ start = tadd sv dv /\ sv <= tadd start' d'
+        (exists pre' start' d' sv dv, pre = pre' ++ [EventSISRel.KAtt u v k start' d' false] /\ tadd start' d' < start /\
+          In (EventSISRel.KRec v sv dv) pre /\ start = tadd sv dv /\ sv <= tadd start' d') /\
+        ((exists su du, In (EventSISRel.KRec u su du) pre /\ start < tadd su du) \/ rec_rate g gamma u == 0)
     end.
-Proof. exact (fun g elog cs H => H). Qed.
+Proof. exact (fun g gamma elog cs H => H). Qed.
 Print Assumptions fsis_clock_record_justified.
 
 (* (3) spelled out *)
 Theorem fsis_no_clock_missing :
-  forall g tau tmax tmin i0 acc s, EventSISClock.CI g tau tmax tmin i0 acc s ->
+  forall g tau gamma tmax tmin i0 acc s, EventSISClock.CI g tau gamma tmax tmin i0 acc s ->
   (forall t c u v, In (t, c, MTrans (Some u) v) (q_items (ms_q s)) ->
      exists k start d rd, In (EventSISRel.KAtt u v k start d rd) acc /\ t = tadd start d) /\
   (forall u v, ms_stat s u = stI -> In v (gadj g u) -> 0 < trans_rate g tau u v ->
@@ -122,7 +125,7 @@ Proof. exact EventSISClock.CI_read. Qed.
 Print Assumptions fsis_no_clock_missing.
 
 Theorem fsis_enabled_pair_has_a_clock :
-  forall g tau tmax tmin i0 acc s, EventSISClock.CI g tau tmax tmin i0 acc s ->
+  forall g tau gamma tmax tmin i0 acc s, EventSISClock.CI g tau gamma tmax tmin i0 acc s ->
   forall u v, ms_stat s u = stI -> ms_stat s v = stS -> In v (gadj g u) -> 0 < trans_rate g tau u v ->
     EventSISClock.Pend s u v \/ EventSISClock.Dead tmax acc s u v \/
     exists ru rv, ms_rec s u = Some ru /\ ms_rec s v = Some rv /\ ru <= rv /\
